@@ -142,7 +142,8 @@ class Session:
         ids = []
 
         def f():
-            dt = 0.01
+            # 100 Hz, or 75 Hz whose sampling interval has no short decimal / binary form (the recordings' time step is input state too)
+            dt = [0.01, 1.0 / 75.0][self.rng.randint(2)]
             for k in range(3):
                 i = self.nid("r")
                 rec = self.make_rec(int(self.rng.choice([240, 400, 400])), dt)
